@@ -16,6 +16,8 @@ import RbV.Lemmas.PoaCustomGlobal
 import RbV.Thm.GenLimits
 import RbV.Model.PoaI32
 import RbV.Lemmas.PoaI32
+import RbV.Thm.GenSrcPoaAdd
+import RbV.Thm.GenSrcPoaAlign
 /-!
 # C16 — partial-order alignment: exact on linear graphs, graph stays a growing DAG
 
@@ -492,5 +494,84 @@ theorem poa_min_score_no_i32_overflow :
     have h := GenLimits.min_score_range.2
     rw [GenLimits.min_score_pairwise_eq_poa] at h
     exact h⟩
+
+/-! ### Translated function bodies (docs/notes/GEN.md, "Dialect poa"): `Gen/SrcPoaAdd.lean`, `Gen/SrcPoaAlign.lean`
+
+The text of `Poa::add_alignment` and of the `Traceback` table is translated to Lean on every `./check C16`
+(`tools/rs2lean_genpoa.py`; petgraph read through the contracts of `Basic/RsSemGenpoa.lean`) and the statements below are
+re-proved over whatever was regenerated.  The exact (tie-breaks included) equality of the DP phase of `Poa::custom` with the
+checked-`i32` mirror is the *soft* module `Thm/GenSrcPoaCustom.lean`. -/
+
+/-- **`Poa::add_alignment` as translated from the source text refines the mirror model**: for every graph, operation list
+(valid or not) and sequence, whenever the translated function returns (no panic: index out of bounds, `add_edge` between
+missing nodes, `unwrap` of the head of an empty graph, `i32` / `usize` overflow) it returns `Model.addAlignment` — head taken
+from the topological walk, matching nodes reused, edge weights incremented, nodes appended for mismatches / insertions -/
+theorem poa_add_alignment_source_eq_model (g : Poa.Model.G) (aln : Rs.Poa.Alignment) (seq : List Nat) (g' : Poa.Model.G)
+    (h : RbV.Gen.SrcPoaAdd.add_alignment g aln seq = Rs.Res.ok g') :
+    g' = Poa.Model.addAlignment g aln.operations seq :=
+  RbV.Thm.GenSrcPoaAdd.add_alignment_eq_model g aln seq g' h
+
+/-- **… hence the graph stays a growing DAG under the translated addition, in every mode** — `_partial`: the operation list
+is the one the faithful *model* of the chosen mode reports (`stepOps`: `custom` with the mode's clip penalties / `global_banded`);
+the tie of `Traceback::alignment` / `Poa::custom` to these lists is the soft module + the correspondence run, and "the
+translated addition does not panic on such a list" is not proved.  For every non-empty well-formed DAG, scoring, clip
+penalties, mode, query: if the translated `add_alignment` returns `g'`, then `g'` is a non-empty well-formed DAG, extends
+`g` (no label / edge removed, no total weight decreased) and has at most `|query|` more nodes. -/
+theorem poa_history_source_acyclic_only_grows_partial (sc : Sc) (cl : Poa.Model.Clips) (g : Poa.Model.G)
+    (mode : Poa.Model.Mode) (q : List Nat) (score : Int) (g' : Poa.Model.G)
+    (hne : g.labels ≠ [])
+    (hwf : ∀ e ∈ g.es, e.1 < g.labels.length ∧ e.2.1 < g.labels.length)
+    (hac : ∀ v, ¬ Reach (plain g.es) v v)
+    (h : RbV.Gen.SrcPoaAdd.add_alignment g ⟨score, Poa.Model.stepOps sc cl g mode q⟩ q = Rs.Res.ok g') :
+    g'.labels ≠ [] ∧ (∀ e ∈ g'.es, e.1 < g'.labels.length ∧ e.2.1 < g'.labels.length) ∧
+    (∀ v, ¬ Reach (plain g'.es) v v) ∧ Extends g.labels g.es g'.labels g'.es ∧
+    g'.labels.length ≤ g.labels.length + q.length := by
+  have e : g' = Poa.Model.stepAdd sc cl g mode q := RbV.Thm.GenSrcPoaAdd.add_alignment_eq_model g _ q g' h
+  subst e
+  have hd := Poa.Model.stepAdd_dag sc cl g mode q ⟨hne, hwf, hac⟩
+  exact ⟨hd.ne, hd.wf, hd.acyclic, (Poa.Model.stepAdd_grows sc cl g mode q).extends,
+    Poa.Model.stepAdd_node_growth sc cl g mode q⟩
+
+/-- **`Traceback::get` as translated = `BRow.get` of the mirror** on every row that represents a model row (`RowRep`: same
+band, cells equal up to the `MIN_SCORE` padding `new_row` allocates), with its three out-of-band answers -/
+theorem poa_traceback_get_source_eq_model (tb : Rs.Poa.Traceback) (i j : Nat) (rr : List Poa.Model.Cell × Nat × Nat)
+    (br : Poa.Model.BRow) (h : tb.matrix[i]? = some rr) (hr : RbV.Thm.GenSrcPoaAlign.RowRep rr br) :
+    RbV.Gen.SrcPoaAlign.Traceback_get tb i j = Rs.Res.ok (br.get j) :=
+  RbV.Thm.GenSrcPoaAlign.get_eq tb i j rr br h hr
+
+/-- **`with_capacity` + `initialize_scores` as translated = row 0 of the checked-`i32` mirror** (`bRow0C`): no checked
+operation fails when the mirror's do not; `m + 1` rows, all but row 0 empty with the band `[0, n + 1)` -/
+theorem poa_traceback_init_source_eq_model (m n : Nat) (gap yclip : Int) (r0 : Poa.Model.BRow)
+    (h : Poa.Model.bRow0C gap yclip n = some r0) (hn : n + 1 < 2 ^ 64) (hm : m + 1 < 2 ^ 64) :
+    (do let tb ← RbV.Gen.SrcPoaAlign.Traceback_with_capacity m n
+        RbV.Gen.SrcPoaAlign.Traceback_initialize_scores tb gap yclip) =
+      Rs.Res.ok { rows := m, cols := n, last := 0, matrix := (r0.cells, 0, n + 1) :: List.replicate m ([], 0, n + 1) } :=
+  RbV.Thm.GenSrcPoaAlign.init_eq m n gap yclip r0 h hn hm
+
+/-- **`new_row` and `set` as translated**: a fresh row becomes `first cell :: size × MIN_SCORE` with the band `[start, end)`
+(first cell = `max(Del(None) (row as i32)·gap, Xclip(0))` at the edge — `edgeCellC` of the mirror —, `MIN_SCORE` otherwise);
+`set` inside `[start, stop]` overwrites position `j - start` -/
+theorem poa_traceback_new_row_set_source_eq_model (tb : Rs.Poa.Traceback) (row size : Nat) (gap xclip : Int)
+    (start end_ s0 e0 : Nat) (h : tb.matrix[row]? = some ([], s0, e0)) (c0 : Poa.Model.Cell)
+    (hc : (if start = 0 then (I32.mul gap (I32.ofUsize row)).map
+        (fun g => Poa.Model.cmax ⟨g, .d none⟩ ⟨xclip, .x 0⟩) else some Poa.Model.mcell) = some c0) :
+    RbV.Gen.SrcPoaAlign.Traceback_new_row tb row size gap xclip start end_ =
+      Rs.Res.ok { tb with matrix := tb.matrix.set row (c0 :: List.replicate size Poa.Model.mcell, start, end_) } ∧
+    ∀ (i j : Nat) (cell : Poa.Model.Cell) (cs : List Poa.Model.Cell) (s e : Nat), tb.matrix[i]? = some (cs, s, e) →
+      s ≤ j → j ≤ e → j - s < cs.length →
+      RbV.Gen.SrcPoaAlign.Traceback_set tb i j cell = Rs.Res.ok { tb with matrix := tb.matrix.set i (cs.set (j - s) cell, s, e) } :=
+  ⟨RbV.Thm.GenSrcPoaAlign.new_row_eq tb row size gap xclip start end_ s0 e0 h c0 hc,
+   fun i j cell cs s e h1 h2 h3 h4 => RbV.Thm.GenSrcPoaAlign.set_eq tb i j cell cs s e h1 h2 h3 h4⟩
+
+-- non-vacuity: the translated functions run (no panic) on a concrete DAG; the addition creates the mismatch node
+example : (match RbV.Gen.SrcPoaAdd.add_alignment { labels := [65, 67, 71], es := [(0, 1, 1), (1, 2, 1)] }
+      ⟨1, [.m none, .m (some (0, 1)), .m (some (1, 2))]⟩ [65, 84, 71] with
+    | .ok g => some (g.labels, g.es)
+    | _ => none) = some ([65, 67, 71, 84], [(0, 1, 1), (1, 2, 1), (0, 3, 1), (3, 2, 1)]) := by decide
+example : (match (RbV.Gen.SrcPoaAlign.custom exSc.w { labels := [65, 67, 71], es := [(0, 1, 1), (1, 2, 1)] } exSc.gap
+      Poa.Model.minScore Poa.Model.minScore Poa.Model.minScore Poa.Model.minScore [65, 84, 71]) >>=
+      RbV.Gen.SrcPoaAlign.Traceback_alignment with
+    | .ok a => some (a.score, a.operations)
+    | _ => none) = some (1, [.m none, .m (some (0, 1)), .m (some (1, 2))]) := by decide +kernel
 
 end RbV.Thm.C16
